@@ -194,6 +194,12 @@ def run(prog, rep, tier):
             rep.examined(R109, "R3.9|%s" % k_, sample={"rule": "R3.9", "instance": k_})
     if nA < 1:
         raise CheckerError("R10.9: no evtx instance among the C03 predicate rules")
+    # ... and the bounds themselves are the ones the user wrote (C03 R3.10 <- C14): they apply to every kind of source
+    for (rid_, key_, what_, det_) in _s3A.violations:
+        if rid_ == "R3.10":
+            rep.violation(R109, key_.split("|", 1)[1] + "|R3.10", what_)
+    for k_ in sorted(_s3A.rules.get("R3.10", {}).get("keys", ()))[:6]:
+        rep.examined(R109, "R3.10|%s" % k_, sample={"rule": "R3.10", "instance": k_})
 
     # ------------------------------------------------------------ R10.7 parser options that discard parsable records stay off
     # `ParserSettings::validate_checksums(true)` makes the evtx crate reject every 64 KiB chunk whose
